@@ -7,6 +7,17 @@ import re
 
 ROOT = os.path.dirname(os.path.dirname(os.path.abspath(__file__)))
 NOTES = {
+    "C07-N": "not detected - outside what the property and the check cover, like C07-F: the change is in the FILE-backend counter "
+             "(runcounter.txt, torn write after a crash), which the code itself marks as an unsafe check-and-set used only without Consul",
+    "C16-M": "not detected - out of the harness's reach: the change is in the JSON (OCClite) transport of the executor's device client "
+             "(executor/executorcmd/nopb); OCClite answers on bare method names that a grpc-go server refuses, so the demonstration hand-frames "
+             "HTTP/2 - the C16 / ExecTask drivers speak the protobuf transport to a grpc-go fake device. The same rewriting of a rejected "
+             "step into a refusal-in-place on the protobuf path would be caught (`Truthful`, `AcceptRule`)",
+    "C09-M": "not detected - reachable only inside the half second between the loss of a critical hook task and the environment's own "
+             "GO_ERROR (C03: the lost task's role is critical, the watcher fires 0.5 s later): the change lets a transition requested in "
+             "that window pass instead of being cancelled by the hook that cannot be triggered; for a non-critical hook task skipping it "
+             "changes nothing. No scenario of the hook catalogue loses a hook task; a schedule-exact one (loss, request within the grace "
+             "period, both racing the watcher) was judged too timing-dependent to be sound",
     "C07-F": "not detected - outside what the property and the check cover: the change is in the FILE-backend counter (runcounter.txt), which "
              "the code itself marks as an unsafe check-and-set used only without Consul; the property's anchors and C07's assumptions name the "
              "Consul key as the shared counter (DESIGN C07, assumption list of the evidence)",
